@@ -411,9 +411,18 @@ pub mod fblk {
     pub static mut ASKED: usize = 0;
     pub static mut BALANCE: i8 = 0;
     pub static mut BAD: bool = false;
+    pub static mut FIRST_ASK_OK: bool = true;
     pub fn push(_g: &mut Game, _m: Move) { unsafe { BALANCE += 1; if BALANCE != 1 { BAD = true; } } }
     pub fn pop(_g: &mut Game, _m: Move) { unsafe { BALANCE -= 1; if BALANCE != 0 { BAD = true; } } }
-    pub fn is_targeted(_g: &Game, _p: Position, _pl: Player) -> bool { unsafe { let a = if ASKED < 4 { ANS[ASKED] } else { BAD = true; false }; ASKED += 1; a } }
+    pub fn is_targeted(g: &Game, p: Position, pl: Player) -> bool {
+        unsafe {
+            // the question asked before the loop: is the mover's king (as cached) attacked, asked for the mover
+            if ASKED == 0 && BALANCE == 0 && (pl != g.current_player || p != g.king_positions[if adapt::is_white(pl) { 0 } else { 1 }]) { FIRST_ASK_OK = false; }
+            let a = if ASKED < 4 { ANS[ASKED] } else { BAD = true; false };
+            ASKED += 1;
+            a
+        }
+    }
 }
 /// The whole legality-filter block (prologue, loop header, body, keep_index compaction, truncate) on a
 /// list of THREE arbitrary candidate moves, against abstract push / is_targeted / pop with arbitrary
@@ -428,10 +437,11 @@ pub fn filter_block_contract() {
     let mut moves: ArrayVec<Move, 256> = ArrayVec::new();
     moves.push(ms[0]); moves.push(ms[1]); moves.push(ms[2]);
     let ans = [nd::bool(), nd::bool(), nd::bool(), nd::bool()];
-    unsafe { fblk::ANS = ans; fblk::ASKED = 0; fblk::BALANCE = 0; fblk::BAD = false; }
+    unsafe { fblk::ANS = ans; fblk::ASKED = 0; fblk::BALANCE = 0; fblk::BAD = false; fblk::FIRST_ASK_OK = true; }
     let player = g.current_player;
     let kp = g.king_positions[if adapt::is_white(player) { 0 } else { 1 }];
     g.verif_filter_block(&mut moves, verify_king);
+    assert!(unsafe { fblk::FIRST_ASK_OK }, "C01: the in-check test before the filter loop asks about the wrong square or the wrong player");
     // what the step contract prescribes, replayed on the abstract answers
     let mut keep = [true; 3];
     if verify_king {
@@ -533,7 +543,7 @@ pub fn get_moves_frame_contract() {
     let j = mk::sym_sq();
     let mut moves: ArrayVec<Move, 256> = ArrayVec::new();
     let ans = [nd::bool(), nd::bool(), nd::bool(), nd::bool()];
-    unsafe { fblk::ANS = ans; fblk::ASKED = 0; fblk::BALANCE = 0; fblk::BAD = false; genblk::MASK = 0; genblk::DUP = false; genblk::ARGS_OK = true; }
+    unsafe { fblk::ANS = ans; fblk::ASKED = 0; fblk::BALANCE = 0; fblk::BAD = false; fblk::FIRST_ASK_OK = true; genblk::MASK = 0; genblk::DUP = false; genblk::ARGS_OK = true; }
     let (hash0, score0, side0, kp0, len0) = (g.hash, g.score, g.current_player, g.king_positions, g.state.len());
     let (bj, phj, psj) = (g.board[j], g.past_hashes[j], g.past_scores[j]);
     let (top0, below0) = (gs_bits(&g), super::super::gamestate::verif_gamestate::bits(g.state[0]));
